@@ -713,6 +713,16 @@ impl<'a> Pool<'a> {
             }
         }
         let mut g = Spec::Seq(fields);
+        if self.o.value_wrappers && self.rng.chance(1, 4) {
+            // a check over the whole group (`construct!(lo, hi).guard(..)`): its failure is not
+            // tied to a single item of the line
+            let id = self.id();
+            g = if self.rng.chance(2, 3) {
+                Spec::wrap(W::Guard, id, g)
+            } else {
+                Spec::wrap(W::ParseStep, id, g)
+            };
+        }
         if self.o.decor && self.rng.chance(1, 3) {
             let id = self.id();
             g = if self.rng.chance(1, 2) {
